@@ -147,6 +147,20 @@ package server
 //@ func (*Honeytrap).startPing$1
 //@   check safety
 //@   modifies *
+// Port table construction (property C19, "first entry wins"): an address is handed to the listener only when
+// it has just been entered in the port table and no OTHER entry of the table is compatible with it under
+// compareAddr (same protocol and port, equal host or a wildcard on either side). Decided per iteration of the
+// entry loop: the scan for an earlier compatible entry visits every key of the table.
+// Section decoding (property C06: a filter without a list admits everything; C19: an entry names its own ports):
+// toml's PrimitiveDecode assigns only the keys present in a section, so every call decodes into an object of its
+// own, allocated after the previous decode - lists of an earlier section never leak into a later one.
+//@ func (*Honeytrap).Run
+//@   check callpre
+//@   modifies *
+//@   callpre PrimitiveDecode: sincelastcall(v)
+//@   callpre AddAddresser.AddAddress: haskey(caller.hc.ports, a1) && (forall k net.Addr :: haskey(caller.hc.ports, k) && k != a1 ==> !cmpaddr(k, a1))
+//@   loop 11: invariant !found ==> (forall k net.Addr :: visited(k) ==> !cmpaddr(k, addr))
+//
 //@ func (*Honeytrap).Run$1
 //@   check safety
 //@   requires l != nil
